@@ -319,8 +319,14 @@ class RedshiftBinningFactory:
         if not isinstance(comov_edges, units.Quantity):
             comov_edges = comov_edges * units.Mpc
 
-        edges = z_at_value(self.cosmology.comoving_distance, comov_edges)
-        return Binning(edges.value, closed=closed)
+        # invert only the inner edges, the outer edges are min and max exactly
+        edges = np.empty(num_bins + 1)
+        edges[0] = min
+        edges[-1] = max
+        if num_bins > 1:
+            inner = z_at_value(self.cosmology.comoving_distance, comov_edges[1:-1])
+            edges[1:-1] = getattr(inner, "value", inner)
+        return Binning(edges, closed=closed)
 
     def logspace(
         self,
@@ -333,6 +339,8 @@ class RedshiftBinningFactory:
         """Creates a binning linear in 1+ln(z) between a min and max redshift."""
         log_min, log_max = np.log([1.0 + min, 1.0 + max])
         edges = np.logspace(log_min, log_max, num_bins + 1, base=np.e) - 1.0
+        edges[0] = min  # avoid rounding errors from the log/exp round trip
+        edges[-1] = max
         return Binning(edges, closed=closed)
 
     def get_method(
